@@ -14,6 +14,12 @@ CLAIMED = {
         note="Crash = exception injected in place of a Python-level file operation (no fsync/rename-durability modelling); configurations: 3 tree versions x user assignments of 4 options + 2 aliases; histories <= 3 syncs/2 changes/2 crashes exhaustively, longer ones by seeded random walks.",
         design_ref="DESIGN.md section 3, C12",
     ),
+    "C13": dict(
+        technique="TLA+ model of the file writers (spec/SaveFile.tla: write_config with backup, _write_if_changed, kconfgen temp-file flow) checked exhaustively by TLC with a crash at every operation; the real writers run under a file-system interposer with the process killed at every operation; recorded traces validated by TLC (spec/Trace_Save.tla)",
+        text="Model checking: TLC explores every initial condition (destination absent/regular/symlink, stale .old, changed/unchanged contents), every crash point and torn chunks of the three writer flows and checks NeverBothLost, UnchangedUntouched, Completed, BackupMade; the real write_config/write_autoconf/write_min_config and kconfgen main() for six formats are executed for the same conditions with a crash injected at every operation they perform, and TLC evaluates the same clauses after every recorded operation.",
+        note="Crash = exception injected in place of a Python-level file operation, writes split per line with torn variants; durability (fsync, directory entries) not modelled; kconfgen docs/report formats not driven.",
+        design_ref="DESIGN.md section 3, C13",
+    ),
 }
 
 REASON_PENDING = "check not built yet in this session (planned in DESIGN.md section 3); not claimed until its TLA+ model and conformance harness exist"
